@@ -2144,8 +2144,11 @@ namespace gch
         }
       }
 
+      // Note: The `std::fill` shortcut assigns, so it is only used for types which are assignable;
+      //       value-initialization itself only requires default construction.
       template <typename A = alloc_ty, typename V = value_ty,
         typename std::enable_if<is_trivially_constructible<V>::value
+                            &&  std::is_trivially_copy_assignable<V>::value
                             &&! must_use_alloc_construct<A, V>::value>::type * = nullptr>
       GCH_CPP20_CONSTEXPR
       ptr
@@ -2161,6 +2164,7 @@ namespace gch
 
       template <typename A = alloc_ty, typename V = value_ty,
         typename std::enable_if<! is_trivially_constructible<V>::value
+                              ||! std::is_trivially_copy_assignable<V>::value
                               ||  must_use_alloc_construct<A, V>::value>::type * = nullptr>
       GCH_CPP20_CONSTEXPR
       ptr
@@ -4354,7 +4358,7 @@ namespace gch
           set_size (new_size);
         }
         else
-          erase_range (unchecked_next (begin_ptr (), new_size), end_ptr ());
+          erase_to_end (unchecked_next (begin_ptr (), new_size));
 
         // Do nothing if the count is the same as the current size.
       }
